@@ -285,3 +285,71 @@ func VH_C16_kinds() {
 	s2 := db.Search(&vCaseK{}, "N", ">=", int64(0)).And("Low", "=", in)
 	vAssert("C16.kinds.search_low_and", s2.Err() == nil && s2.Len() == 1)
 }
+
+// ---- nested paths whose element names share letters ----
+
+type vPathCity struct {
+	Code string `sod:"upper"`
+	Name string `sod:"lower,index"`
+}
+
+type vPathContact struct {
+	Country string `sod:"upper,index"`
+	City    vPathCity
+	Tag     string `sod:"lower"`
+	Other   string
+}
+
+type vPathAa struct {
+	A   string `sod:"lower"`
+	Aaa string `sod:"upper"`
+}
+
+type vPaths struct {
+	Item
+	Contact vPathContact
+	Company struct {
+		Code string `sod:"upper"`
+	}
+	Aa vPathAa
+}
+
+// VH_C16_paths: "at any nesting depth" for paths whose elements begin with
+// letters that also occur in their parent's name (Contact.Country,
+// Contact.City.Code, Company.Code, Aa.A, Aa.Aaa ...): a path is followed
+// element by element, whatever the names are.
+func VH_C16_paths() {
+	root := vTempDir()
+	db := Open(root)
+	LowercaseNames = false
+	vAssert("C16.paths.create", db.Create(&vPaths{}, DefaultSchema) == nil)
+	in := vString("in", vBound("L", 2))
+	o := &vPaths{}
+	o.Contact.Country, o.Contact.City.Code, o.Contact.City.Name, o.Contact.Tag, o.Contact.Other = in, in, in, in, in
+	o.Company.Code = in
+	o.Aa.A, o.Aa.Aaa = in, in
+	vAssert("C16.paths.insert", db.InsertOrUpdate(o) == nil)
+	if vChoice("reopen", 2) == 1 {
+		vAssert("C16.paths.close", db.Close() == nil)
+		db = Open(root)
+	}
+	got, err := db.GetByUUID(&vPaths{}, o.UUID())
+	vAssert("C16.paths.get", err == nil)
+	if err != nil {
+		return
+	}
+	g := got.(*vPaths)
+	up, lo := vhUpperASCII(in), vhLowerASCII(in)
+	vAssert("C16.paths.Contact.Country", g.Contact.Country == up)
+	vAssert("C16.paths.Contact.City.Code", g.Contact.City.Code == up)
+	vAssert("C16.paths.Contact.City.Name", g.Contact.City.Name == lo)
+	vAssert("C16.paths.Contact.Tag", g.Contact.Tag == lo)
+	vAssert("C16.paths.Contact.Other_untouched", g.Contact.Other == in)
+	vAssert("C16.paths.Company.Code", g.Company.Code == up)
+	vAssert("C16.paths.Aa.A", g.Aa.A == lo)
+	vAssert("C16.paths.Aa.Aaa", g.Aa.Aaa == up)
+	s1 := db.Search(&vPaths{}, "Contact.Country", "=", in)
+	vAssert("C16.paths.search_indexed", s1.Err() == nil && s1.Len() == 1)
+	s2 := db.Search(&vPaths{}, "Contact.City.Name", "=", in).And("Company.Code", "=", in)
+	vAssert("C16.paths.search_and_unindexed", s2.Err() == nil && s2.Len() == 1)
+}
